@@ -1,6 +1,6 @@
 //! C13 — remove_overlaps: correspondence with Model/Overlap.v + the property oracle on the implementation.
-use crate::common::*;
-use crate::gen;
+use hv::common::*;
+use hv::gen;
 use harper_core::linting::{Lint, LintGroup, Linter};
 use harper_core::{remove_overlaps, Dialect, Document, FstDictionary, Span};
 use serde_json::{json, Value};
@@ -225,4 +225,9 @@ pub fn run(a: &Args, corpus: &[Value]) {
         rep.extra.insert("exhaustive_sequences_le5_over_0_4".into(), json!(count));
     }
     rep.finish();
+}
+
+fn main() {
+    let (args, corpus) = hv::cli();
+    run(&args, &corpus);
 }
